@@ -41,6 +41,12 @@ def cases(tier, seed):
             for x in ("add_cb", "cancel"):
                 out.append({"name": "fut.nested/%s/%s/%s" % (entry, kind, x), "kind": "nested", "entry": entry, "ckind": kind, "x": x,
                             "budget": 500 if tier == "quick" else None})
+    chain_entries = (EXEC_ENTRIES + F_ENTRIES) if tier == "thorough" else ["map", "flat_map", "retry", "poll", "throttle", "timeout", "cos",
+                                                                          "f_map", "f_zip", "f_proxy", "f_nocancel"]
+    for entry in chain_entries:
+        for shape in ("map-map", "zip-map", "flat-map"):
+            out.append({"name": "fut.chain/%s/%s" % (entry, shape), "kind": "chain", "entry": entry, "shape": shape,
+                        "cap": 12 if tier == "quick" else None})
     for entry in ("sync", "pool", "f_return", "f_return_error", "f_return_cancelled"):
         out.append({"name": "fut.simple/%s" % entry, "kind": "simple", "entry": entry})
     nf = 24 if tier == "quick" else 2000
@@ -324,6 +330,96 @@ class NScenario(PScenario):
             res.count("foreign.future_still_pending")
 
 
+class ChainScenario(object):
+    """Futures derived from one another (f0 from the entry point, f1 derived from f0, f2 from f1), each with a probe.
+    Two threads operate on two different links of the chain - cancel either, or end the underlying work while the
+    other end is cancelled: every call returns and every link obeys the protocol."""
+
+    def __init__(self, case, a, b):
+        self.case, self.a, self.b = case, a, b
+
+    def setup(self):
+        F = instr.ME.futures
+        ctx = Ctx()
+        e = Entry(ctx, self.case["entry"])
+        ctx.e = e
+        f0 = e.f
+        shape = self.case["shape"]
+        if shape == "map-map":
+            f1 = F.f_map(f0, lambda v: ("l1", v))
+            f2 = F.f_map(f1, lambda v: ("l2", v))
+        elif shape == "zip-map":
+            ctx.side = SpyFuture("side")
+            f1 = F.f_zip(f0, ctx.side)
+            f2 = F.f_map(f1, lambda v: ("l2", v))
+        else:
+            f1 = F.f_flat_map(f0, lambda v: F.f_return(("l1", v)))
+            f2 = F.f_flat_map(f1, lambda v: F.f_return(("l2", v)))
+        ctx.links = [f0, f1, f2]
+        ctx.probes = [Probe(f) for f in ctx.links]
+        for i, p in enumerate(ctx.probes):
+            p.add_cb("pre%d" % i)
+        return ctx
+
+    def op(self, ctx, what, who):
+        if what == "complete":
+            ctx.e.complete("value")
+        elif what == "fail":
+            ctx.e.complete("exc")
+        elif what == "inner_cancel":
+            ctx.e.complete("inner_cancel")
+        else:
+            ctx.probes[int(what[-1])].cancel(who)
+
+    def victim_role(self, ctx):
+        return "V"
+
+    def start_victim(self, ctx):
+        return ctx.actor("V", self.op, ctx, self.a, "V").go()
+
+    def intervene(self, ctx):
+        self.op(ctx, self.b, "I")
+
+    def finish(self, ctx):
+        instr.advance(0.6)
+        ctx.e.complete("value")
+        if getattr(ctx, "side", None) is not None and not ctx.side.done():
+            ctx.side.set_result("side")
+        instr.advance(1.2)
+        for i, p in enumerate(ctx.probes):
+            p.add_cb("post%d" % i)
+        instr.advance(0.1)
+
+    def oracle(self, ctx, res, info):
+        label = "chain/%s/%s/%s|%s" % (self.case["entry"], self.case["shape"], self.a, self.b)
+        done = 0
+        for i, p in enumerate(ctx.probes):
+            if p.judge(res, "%s link%d" % (label, i), info.get("site")):
+                done += 1
+        if done == len(ctx.probes):
+            if info.get("hit") or info.get("pos") is None:
+                res.key(label, info.get("site"))
+        else:
+            res.count("foreign.future_still_pending")
+        res.count("chain_links_judged", done)
+        res.sample({"entry": self.case["entry"], "chain": self.case["shape"], "ops": [self.a, self.b], "placement": info.get("site"),
+                    "cancel_returns": [[repr(c[2]) for c in p.cancels] for p in ctx.probes],
+                    "final": [outcome_repr(outcome(f)) for f in ctx.links]}, limit=1)
+
+
+CHAIN_PAIRS = [("cancel0", "cancel2"), ("cancel2", "cancel0"), ("cancel0", "cancel1"), ("cancel1", "cancel0"), ("cancel1", "cancel2"),
+               ("cancel2", "cancel1"), ("complete", "cancel2"), ("cancel2", "complete"), ("fail", "cancel1"), ("cancel1", "fail"),
+               ("inner_cancel", "cancel2"), ("cancel2", "inner_cancel"), ("inner_cancel", "cancel1")]
+
+
+def run_chain(case, res):
+    rng = random.Random("c02/%s/%s" % (case["seed"], case["name"]))
+    for a, b in CHAIN_PAIRS:
+        Sweep(ChainScenario(case, a, b), res, "vt", case["name"]).run(case["cap"], rng, per_site=1)
+        if harness.need_recycle():
+            return
+
+
 def run_pairs(case, res):
     rng = random.Random("c02/%s/%s" % (case["seed"], case["name"]))
     for a, b in itertools.permutations(OPS, 2):
@@ -510,6 +606,8 @@ def run_case(case, res):
         SweepNested(NScenario(case["entry"], case["ckind"], case["x"]), res, "vt", case["name"]).run(None, None, rng, per_site=1, budget=case["budget"])
     elif k == "pairs":
         run_pairs(case, res)
+    elif k == "chain":
+        run_chain(case, res)
     elif k == "simple":
         run_simple(case, res)
     elif k == "waiters":
